@@ -504,7 +504,7 @@ func main() {
 	mkMap := func(name string) *cq.Set {
 		return &cq.Set{Name: name, Import: "IV.Check.C05MapCheck", CaseType: "c05map_case", Checks: []string{"cmap_mismatches"}}
 	}
-	const nMapSets = 4
+	const nMapSets = 6
 	for i := 0; i < nMapSets; i++ {
 		sets = append(sets, mkMap(fmt.Sprintf("c05map%d", i)))
 	}
@@ -529,7 +529,7 @@ func main() {
 		return map[string]interface{}{
 			"map_state_via": mapStateVia, "map_cases": nmap, "map_cases_cut_for_cost": nmapCut,
 			"map_max_capacity_observed": maxCap,
-			"map_observables": "after every Record: len(arrivalTimes), beginSequenceNumber, endSequenceNumber, digest of arrivalTimes[0..cap)",
+			"map_observables":           "after every Record: len(arrivalTimes), beginSequenceNumber, endSequenceNumber, digest of arrivalTimes[0..cap)",
 		}
 	}
 	cur := 0
@@ -597,6 +597,21 @@ func main() {
 			addMap(runMap(sender, ops, mapBudgetReuse), sets[mapSet0+(i/reuseEvery)%nMapSets], bs...)
 		}
 	}
+	// long run, 500 ms cull that leaves 129..900 entries, late arrivals in the retained range
+	// (genlongcull.go): in the ordinary sets, spread over the c05str shards, and on the buffer model
+	nc := o.Scale(4, 40)
+	if o.N > 0 {
+		nc = 1 + o.N/200
+	}
+	for i := 0; i < nc; i++ {
+		cur = 1 + (i*3+2)%8
+		ops, bs := genLongCull(r)
+		sender := uint32(r.Intn(1 << 16)) //nolint:gosec
+		add(run(sender, ops), bs...)
+		if o.N == 0 {
+			addMap(runMap(sender, ops, mapBudgetBig), sets[mapSet0+i%nMapSets], bs...)
+		}
+	}
 	nl := o.Scale(0, 2)
 	if o.N > 0 {
 		nl = 0
@@ -607,27 +622,41 @@ func main() {
 	}
 	// concrete buffer against the real arrival map: own generator (own PRNG stream,
 	// so the histories of the other sets do not depend on it)
+	bigSets := []*cq.Set{} // evaluated first: the longest single cases
 	if o.N == 0 {
 		rm := rand.New(rand.NewSource(o.Seed*1000003 + 5)) //nolint:gosec
-		spans := []int64{150, 150, 300, 300, 300, 600, 600, 1200, 1200, 2500, 4200}
-		nm := o.Scale(140, 1200)
+		spans := []int64{150, 150, 300, 300, 300, 600, 600, 1200, 1200, 2500, 2500, 4200}
+		nm := o.Scale(140, 1400)
 		for i := 0; i < nm; i++ {
 			span := spans[rm.Intn(len(spans))]
-			ops, bs := genMap(rm, span, 8+rm.Intn(40))
-			addMap(runMap(uint32(rm.Intn(1<<16)), ops, mapBudget), sets[mapSet0+i%nMapSets], bs...) //nolint:gosec
+			steps := 8 + rm.Intn(40)
+			if span > 2000 { // wide and short: every operation at 2048 / 4096 slots is expensive in Coq
+				steps = 5 + rm.Intn(10)
+			}
+			ops, bs := genMap(rm, span, steps)
+			budget := int64(mapBudget)
+			if span > 2000 { // one gap that takes the buffer to 4096 slots costs about 35e6
+				budget = mapBudgetWide
+			}
+			addMap(runMap(uint32(rm.Intn(1<<16)), ops, budget), sets[mapSet0+i%nMapSets], bs...) //nolint:gosec
+		}
+		for i := 0; i < o.Scale(4, 12); i++ { // up to 4096 slots (2048 for every other one) and back to 128
+			ops, bs := genMapBig(rm, 4096/int64(1+i%2))
+			addMap(runMap(uint32(rm.Intn(1<<16)), ops, mapBudgetBig), sets[mapSet0+i%nMapSets], bs...) //nolint:gosec
 		}
 		// few operations up to a large capacity and back; one set each (one shard each)
-		bigs := []int64{8192, 8192, 16384}
+		// (measured: 8192 about 9 s, 16384 about 27 s, 32768 more than 45 s of vm_compute each)
+		bigs := []int64{8192, 8192}
 		if o.Tier == "thorough" {
-			bigs = []int64{8192, 8192, 8192, 16384, 16384, 32768, 32768}
+			bigs = []int64{32768, 32768, 16384, 16384, 8192, 8192, 8192}
 		}
 		for i, target := range bigs {
 			ops, bs := genMapBig(rm, target)
 			s := mkMap(fmt.Sprintf("c05mapbig%d", i))
-			sets = append(sets, s)
+			bigSets = append(bigSets, s)
 			addMap(runMap(uint32(rm.Intn(1<<16)), ops, mapBudgetBig), s, bs...) //nolint:gosec
 		}
 	}
 	cq.Write(o, "history of Record/Build operations on twcc.Recorder, distinct by content; non-trivial = at least 2 records and at least one feedback packet produced (map sets: at least 2 records)",
-		nonEmpty(), mapExtra(), fails)
+		append(bigSets, nonEmpty()...), mapExtra(), fails)
 }
